@@ -248,7 +248,7 @@ func runWorkbook(c *fw.Ctx, idx int, o genOpts, record bool) ([]failure, *wbMode
 	members := wb.Members(c.Rand("wb", idx, "render"))
 	ooxml.PartShuffle(members, c.Rand("wb", idx, "ziporder"))
 	data := ooxml.PartZip(members)
-	path := filepath.Join(c.Work, fmt.Sprintf("c17-%d-%v%v%v.xlsx", idx, o.StaleCovered, o.RowRefOmitted, o.DamagedMerge))
+	path := filepath.Join(c.Work, fmt.Sprintf("c17-%d-%v%v%v%v.xlsx", idx, o.StaleCovered, o.RowRefOmitted, o.DamagedMerge, o.CellRefOmitted))
 	if err := os.WriteFile(path, data, 0o644); err != nil {
 		c.Inconclusive("cannot write scratch file: " + err.Error())
 		return nil, m, nil
@@ -624,7 +624,7 @@ func Run(c *fw.Ctx) {
 			return
 		}
 		// clean half: even indices never carry the stale-covered-value feature
-		o := genOpts{StaleCovered: i%2 == 1, RowRefOmitted: i%2 == 1, DamagedMerge: i%4 == 3}
+		o := genOpts{StaleCovered: i%2 == 1, RowRefOmitted: i%2 == 1, DamagedMerge: i%4 == 3, CellRefOmitted: i%4 >= 2}
 		fails, m, detail := runWorkbook(c, i, o, true)
 		desc := fmt.Sprintf("%v|%d", m.Features, i)
 		var addrDesc strings.Builder
@@ -656,7 +656,7 @@ func Run(c *fw.Ctx) {
 		finding := ""
 		if hasStale(m) && c.FindingOpen(findingStale) {
 			// counterfactual: the same workbook without hidden values in covered cells
-			f2, _, d2 := runWorkbook(c, i, genOpts{StaleCovered: false, RowRefOmitted: o.RowRefOmitted, DamagedMerge: o.DamagedMerge}, false)
+			f2, _, d2 := runWorkbook(c, i, genOpts{StaleCovered: false, RowRefOmitted: o.RowRefOmitted, DamagedMerge: o.DamagedMerge, CellRefOmitted: o.CellRefOmitted}, false)
 			if len(f2) == 0 {
 				finding = findingStale
 			} else {
